@@ -49,3 +49,32 @@ extern "C" void h_pool() {
     }   // ~ObjectPool releases parked blocks (double free / invalid free is reported by the engine's memory model)
     VP_ASSERT(g_ctor == allocs && g_dtor == frees && allocs == frees, "constructor/destructor balance at the end");
 }
+
+// nested use: an element whose constructor allocates another element from the SAME pool (tree / chain nodes), with free blocks parked
+struct Node {
+    unsigned long tag; Node *child; unsigned long pad;
+    Node(tbox::ObjectPool<Node> *pool, unsigned long t, int depth) : tag(t), child(nullptr), pad(~t) { ++g_ctor; if (depth > 0) child = pool->alloc(pool, t + 1, depth - 1); }
+    ~Node() { ++g_dtor; tag = 0xdeadUL; }
+};
+extern "C" void h_pool_nested() {
+    g_ctor = g_dtor = 0;
+    unsigned long keep = nondet_ulong(); VP_ASSUME(keep <= 2 || keep == (unsigned long)-1);
+    {
+        tbox::ObjectPool<Node> pool(keep);
+        unsigned pre = nondet_uchar(); VP_ASSUME(pre <= 2);                   // blocks parked in the free list beforehand
+        Node *tmp[2];
+        for (unsigned i = 0; i < pre; i++) tmp[i] = pool.alloc(&pool, 50ul + i, 0);
+        for (unsigned i = 0; i < pre; i++) pool.free(tmp[i]);
+        int c0 = g_ctor, d0 = g_dtor;
+        Node *n = pool.alloc(&pool, 100ul, 2);                                   // constructs a chain of three nodes from inside the constructors
+        VP_ASSERT(n && n->child && n->child->child && !n->child->child->child, "the nested allocations produced the chain");
+        VP_ASSERT(n != n->child && n != n->child->child && n->child != n->child->child, "pool never hands out storage that is still in use (also while its constructor is running)");
+        VP_ASSERT(n->tag == 100 && n->pad == ~100ul && n->child->tag == 101 && n->child->pad == ~101ul && n->child->child->tag == 102 && n->child->child->pad == ~102ul, "every object keeps what its constructor wrote");
+        VP_ASSERT(g_ctor == c0 + 3 && g_dtor == d0, "one constructor per alloc");
+        Node *c = n->child, *cc = c->child;
+        pool.free(cc); pool.free(c); pool.free(n);
+        VP_ASSERT(g_dtor == d0 + 3, "one destructor per free");
+        VP_ASSERT(pool.free_number_ <= keep, "parked blocks never exceed the retention limit");
+        VP_REACH("pool_nested");
+    }
+}
